@@ -81,6 +81,10 @@ WITNESSES = [
      "input": "fun f() {\n  \"a\nb\"\n  1\n}\n",
      "expect": {"stdout_contains": "\"line_number\":2,\"end_line_number\":3,\"column\":2,\"end_column\":2"},
      "note": "a string literal spanning two lines ends on the line of its closing quote"},
+    {"match": r"lex_between\.(site\[token_pos|loop#1\.inv\[tokens_ok\]|post\[tokens_ok\])", "kind": "check-json", "props": ["C23"],
+     "input": "fun f() {\n  \"a\n \u00e9\"\n  1\n}\n",
+     "expect": {"stdout_contains": "\"line_number\":2,\"end_line_number\":3,\"column\":2,\"end_column\":4"},
+     "note": "columns are byte columns: a 2-byte character on the last line of a multi-line string counts as 2"},
     {"match": r"lex_between\.(site\[error_pos|loop#1\.inv\[errors_ok\])", "kind": "check-json", "props": ["C23"],
      "input": "let x = 1 \u00e9\n",
      "expect": {"stdout_contains": "\"column\":10,\"end_column\":12"},
